@@ -494,6 +494,11 @@ def r9_context_state(c, facts):
                     for pr in st['place']['proj']:
                         if pr['p'] == 'field' and (pr.get('owner') or '').endswith('grammar::Context') and pr['name'] not in ('tree', 'cache'):
                             written.setdefault(pr['name'], set()).add(facts.home(fn).qname.split('::')[-1])
+                # ... or lent mutably (`self.errors.push(e)`, `mem::take(&mut self.depth)`)
+                if st['s'] == 'assign' and st['rv']['r'] in ('ref', 'rawptr') and st['rv'].get('mut'):
+                    for pr in st['rv']['place']['proj']:
+                        if pr['p'] == 'field' and (pr.get('owner') or '').endswith('grammar::Context') and pr['name'] not in ('tree', 'cache'):
+                            written.setdefault(pr['name'], set()).add(facts.home(fn).qname.split('::')[-1])
     stateful = sorted(f for f in extra if f in written or any(k in fields[f] for k in ('Cell<', 'RefCell<', 'Atomic')))
     if stateful:
         c.bad(R, 'context-carries-state:%s' % ','.join(stateful), 'grammar::Context has further mutable state (%s, written by %s): what a production returns can depend on what was parsed before, so a memoised result and a recomputed one can differ' % (stateful, {f: sorted(written.get(f, ())) for f in stateful}))
